@@ -192,8 +192,8 @@ def unit_make_kwargs(sess, ctx):
         has_O = eng.choose(2, None, "-O given?") == 1
         d["join_detections"] = Fl(Real("join")) if has_j else None
         d["save_stream"] = Opq(tag="str") if has_O else None
-        uc = ["None", "digits", "name"][eng.choose(3, None, "use_channel kind")]
-        d["use_channel"] = {"None": None, "digits": "1", "name": "mix"}[uc]
+        uc = ["None", "digits", "name", "negative"][eng.choose(4, None, "use_channel kind")]
+        d["use_channel"] = {"None": None, "digits": "1", "name": "mix", "negative": "-1"}[uc]
         d["plot"] = Bool("plot")
         d["save_image"] = None if eng.choose(2, None, "--save-image given?") == 0 else Opq(tag="str")
         tcache = {}
@@ -223,7 +223,8 @@ def unit_make_kwargs(sess, ctx):
                   all(same(mi, k, a) for k, a in MISC_MAP.items()), props=P15)
         ucv = io.get("use_channel", (False, None))[1]
         eng.prove("C15:make_kwargs:use_channel-is-an-int-when-numeric-else-unchanged",
-                  (ucv is None) if uc == "None" else ((isinstance(ucv, int) and ucv == 1) if uc == "digits" else ucv == "mix"), props=P15)
+                  (ucv is None) if uc == "None" else ((isinstance(ucv, int) and ucv == 1) if uc == "digits" else
+                                                      ((isinstance(ucv, int) and ucv == -1) if uc == "negative" else ucv == "mix")), props=P15)
         return None
     sess.run_unit(u, eng, run_)
     return u
@@ -302,16 +303,19 @@ def unit_initialize_workers(sess, ctx):
         else:
             eng.prove("C15:init_workers:tokenizer-reads-the-plain-reader", ta[0] == rd[0][3], props=P15)
         if has_O and has_j:
-            jw = [x for x in log if x[0] == "AudioEventsJoinerWorker"][0]
+            jws = [x for x in log if x[0] == "AudioEventsJoinerWorker"]
             eng.prove("C15:init_workers:-j-joiner-gets-silence-file-and-the-reader's-format",
-                      jw[2].get("silence_duration") is kw["join_detections"] and jw[2].get("filename") is kw["save_stream"], props=P15 + ("C13",))
+                      len(jws) == 1 and jws[0][2].get("silence_duration") is kw["join_detections"] and
+                      jws[0][2].get("filename") is kw["save_stream"], props=P15 + ("C13",))
         if has_o:
-            rs = [x for x in log if x[0] == "RegionSaverWorker"][0]
-            eng.prove("C15:init_workers:-o-template-goes-to-the-region-saver", rs[1][0] is kw["save_detections_as"], props=P15 + ("C13",))
+            rss = [x for x in log if x[0] == "RegionSaverWorker"]
+            eng.prove("C15:init_workers:-o-template-goes-to-the-region-saver", len(rss) == 1 and rss[0][1][0] is kw["save_detections_as"],
+                      props=P15 + ("C13",))
         if not quiet:
-            pw = [x for x in log if x[0] == "PrintWorker"][0]
+            pws = [x for x in log if x[0] == "PrintWorker"]
             eng.prove("C15:init_workers:print-worker-gets-printf(escapes-expanded)-and-time-format",
-                      pw[1][0] == "{id} \u2192 {start}\t{end}\n d\u00e9tection" and pw[1][1] is tf and pw[1][2] is tsf, props=P15)
+                      len(pws) == 1 and pws[0][1][0] == "{id} \u2192 {start}\t{end}\n d\u00e9tection" and pws[0][1][1] is tf and
+                      pws[0][1][2] is tsf, props=P15)
         for K in ("min_dur", "max_dur", "max_silence", "drop_trailing_silence", "strict_min_dur", "energy_threshold", "use_channel"):
             eng.prove("C15:init_workers:option-%s-reaches-the-tokenizer-worker" % K, tkw.get(K) is kw[K], props=P15)
         return None
@@ -375,7 +379,14 @@ def unit_main(sess, ctx):
         eng.iface[("ITokW", "start_all")] = lambda e, o, a, k: log.append(("start_all",))
         eng.iface[("ITokW", "stop_all")] = lambda e, o, a, k: log.append(("stop_all",))
         eng.iface[("ISaver", "join")] = lambda e, o, a, k: log.append(("saver.join",))
-        eng.iface[("ISaver", "export_audio")] = lambda e, o, a, k: log.append(("saver.export",))
+        # the final export may fail: with the encoder's own warning, or with any other error (unwritable target, full disk)
+        exp_out = ["ok", "AudioEncodingWarning", "OSError"][eng.choose(3, None, "export_audio outcome")] if with_saver else "ok"
+
+        def c_export(e, o, a, k):
+            log.append(("saver.export",))
+            if exp_out != "ok":
+                raise PyRaise(exp_out, ("export failed",))
+        eng.iface[("ISaver", "export_audio")] = c_export
         how = ["end", "interrupt"][eng.choose(2, None, "how the wait ends")]
 
         def sleep(e, a, k):
@@ -406,7 +417,11 @@ def unit_main(sess, ctx):
             eng.prove("C15:main:stream-saver-joined-then-exported-after-stop_all",
                       "saver.join" in names and "saver.export" in names and names.index("stop_all") < names.index("saver.join") < names.index("saver.export"),
                       props=P15 + ("C13", "C14"))
-        eng.prove("C15:main:nothing-printed-by-main-itself", gh.get("stdout", []) == [], props=P15)
+        if exp_out == "ok":
+            eng.prove("C15:main:nothing-printed-by-main-itself", gh.get("stdout", []) == [], props=P15)
+        else:
+            out_ = gh.get("stdout", [])
+            eng.prove("C15:main:a-failed-export-is-reported-on-stderr-only", len(out_) == 1 and "file" in out_[0][1], props=P15)
         return None
     sess.run_unit(u, eng, run_)
     return u
